@@ -120,6 +120,9 @@ def parse_rvalue(s):
         return ('unop',m.group(1),parse_operand(m.group(2)))
     m=re.match(r'^((?:copy|move|const) .*) as (.*) \((\w+)(?:\(.*\))?(?:, \w+)?\)$',s)
     if m: return ('cast',m.group(3),parse_operand(m.group(1)),m.group(2))
+    # a function item reified into a function pointer: `path::f as fn(..) -> T (PointerCoercion(ReifyFnPointer(Safe), Implicit))`
+    m=re.match(r'^(.*?) as ((?:for<[^>]*> )?(?:unsafe )?(?:extern "[^"]*" )?fn\(.*) \((PointerCoercion)\(.*\)(?:, \w+)?\)$',s)
+    if m: return ('cast',m.group(3),parse_operand(m.group(1)),m.group(2))
     if s.startswith(('copy ','move ','const ','no_retag copy ')): return ('use',parse_operand(s))
     # aggregates
     if s.startswith('[') and s.endswith(']'):
